@@ -114,10 +114,14 @@ class PhasePredictor(QTable):
             raise ValueError("Some timestamps outside predictor range!")
 
         span_ends = self["tmid"] + self["span"] / 2
-        # Same time scale on both sides: .mjd is the reading in the object's own scale
         ends = np.atleast_1d(span_ends.mjd)
         order = np.argsort(ends)  # rows of a subset may be in any order
-        index = order[np.searchsorted(ends[order], getattr(times, span_ends.scale).mjd)]
+        # The entry is the first one whose span has not ended. Times are compared
+        # as such: one float64 MJD resolves no better than a microsecond.
+        count = np.zeros(times.shape, dtype=np.intp)
+        for end in np.atleast_1d(span_ends)[order][:-1]:
+            count += times > end
+        index = order[count] if times.shape else order[int(count)]
         dt = (times - self["tmid"][index]).to_value(u.s)
         return index, dt
 
